@@ -310,7 +310,9 @@ class HeapExecutor(PureExecutor):
     def get_attr_cls(self, recv, cname, name, st, node):
         ci = self.prog.classes.get(cname)
         if ci is None:
-            raise Unsupported('attribute %s of builtin %s at line %s' % (name, cname, node.lineno))
+            if hasattr([], name):
+                raise Unsupported('attribute %s of builtin %s at line %s' % (name, cname, node.lineno))
+            return [(st.raise_('AttributeError', node.lineno), None)]
         prop = ci.lookup_prop(name)
         if prop is not None:
             g = prop.get('getter')
@@ -404,6 +406,8 @@ class HeapExecutor(PureExecutor):
     def write_field(self, recv, cname, name, v, st, node):
         st = st.copy()
         r = self.rv(recv)
+        if name == '_parent' and cname in ('BaseSection', 'BaseProperty'):
+            st = self.ghost_parent_write(st, r, Select(self.H(st, name), r), v)
         st.heap['f:' + name] = Store(self.H(st, name), r, v)
         self.touch(st)
         kinds = FIELD_TYPES.get(name)
@@ -418,6 +422,47 @@ class HeapExecutor(PureExecutor):
         if name in ('_sections', '_props'):
             st.heap['g:owner'] = Store(self.G(st, 'owner', AI), self.rv(v), r)
             st.heap['g:kind'] = Store(self.G(st, 'kind', AI), self.rv(v), intlit(0 if name == '_sections' else 1))
+        return st
+
+    def ghost_parent_write(self, st, r, old, new):
+        """Ghost ancestor relation / depth updated at every write of a _parent field:
+        detach: descendants-or-self of r lose r's former ancestors; attach: they gain the new
+        parent and its ancestors; depth shifts accordingly.  Total functions of the write - whether
+        the result still satisfies I4 is checked at function exit."""
+        AAB = '(Array Int (Array Int Bool))'
+        anc = self.G(st, 'anc', AAB)
+        dep = self.G(st, 'depth', AI)
+        d = bvar(fresh_name('d'), INT)
+        a = bvar(fresh_name('a'), INT)
+        old_ref, new_ref = Is('VRef', old), Is('VRef', new)
+        pn = Acc('rv', new)
+
+        def A(arr, x, y):
+            return Select(Select(arr, x), y)
+        inD = Or(Eq(d, r), A(anc, d, r))
+        # step 1: detach
+        anc1 = const(fresh_name('anc'), AAB)
+        dep1 = const(fresh_name('depth'), AI)
+        f1 = Forall([d, a], Eq(A(anc1, d, a),
+                               Ite(And(old_ref, inD), And(A(anc, d, a), Not(A(anc, r, a))), A(anc, d, a))),
+                    patterns=[(A(anc1, d, a),)])
+        g1 = Forall([d], Eq(Select(dep1, d),
+                            Ite(And(old_ref, inD), Sub(Select(dep, d), Select(dep, r)), Select(dep, d))),
+                    patterns=[(Select(dep1, d),)])
+        # step 2: attach
+        anc2 = const(fresh_name('anc'), AAB)
+        dep2 = const(fresh_name('depth'), AI)
+        inD1 = Or(Eq(d, r), A(anc1, d, r))
+        f2 = Forall([d, a], Eq(A(anc2, d, a),
+                               Ite(And(new_ref, inD1), Or(A(anc1, d, a), Eq(a, pn), A(anc1, pn, a)), A(anc1, d, a))),
+                    patterns=[(A(anc2, d, a),)])
+        g2 = Forall([d], Eq(Select(dep2, d),
+                            Ite(And(new_ref, inD1), Add(Add(Select(dep1, d), Select(dep1, pn)), intlit(1)),
+                                Select(dep1, d))),
+                    patterns=[(Select(dep2, d),)])
+        st = st.assume(And(f1, g1, f2, g2))
+        st.heap['g:anc'] = anc2
+        st.heap['g:depth'] = dep2
         return st
 
     def G(self, st, name, sort):
